@@ -66,14 +66,34 @@ def strip_coq_comments(s):
     return "".join(out)
 
 
+REQ_RE = re.compile(r"From\s+ChibiV\s+Require\s+(?:Import\s+|Export\s+)?(.*?)\.\s", re.S)
+
+
+def dep_closure(vfile):
+    """all .v files under coq/ that vfile (transitively) requires through `From ChibiV Require ...`"""
+    seen, todo = [], [os.path.abspath(vfile)]
+    while todo:
+        f = todo.pop()
+        if f in seen or not os.path.exists(f):
+            continue
+        seen.append(f)
+        for m in REQ_RE.finditer(strip_coq_comments(open(f).read()) + " "):
+            for mod in m.group(1).split():
+                todo.append(os.path.join(COQ, mod.replace(".", "/") + ".v"))
+    return sorted(seen)
+
+
 def forbidden_scan(files=None):
     """grep gate over the development; returns list of (file, line, text)"""
     bad = []
-    for dp, dn, fn in os.walk(COQ):
-        for f in fn:
-            if not f.endswith(".v"):
-                continue
-            p = os.path.join(dp, f)
+    if files is None:
+        files = []
+        for dp, dn, fn in os.walk(COQ):
+            for f in fn:
+                if f.endswith(".v"):
+                    files.append(os.path.join(dp, f))
+    if True:
+        for p in sorted(files):
             txt = strip_coq_comments(open(p).read())
             # string literals may legitimately contain the words
             txt2 = re.sub(r'"[^"]*"', '""', txt)
@@ -156,7 +176,7 @@ class Ctx:
         vfile = os.path.join(COQ, prop_file + ".v")
         src = strip_coq_comments(open(vfile).read())
         thms = re.findall(r"^\s*(?:Theorem|Corollary)\s+([A-Za-z0-9_']+)", src, re.M)
-        bad = forbidden_scan()
+        bad = forbidden_scan(dep_closure(vfile))
         if bad:
             for b in bad[:10]:
                 self.unproved.append(dict(name="forbidden-construct", reason="%s:%d: %s" % b))
@@ -242,11 +262,8 @@ class Ctx:
             os.makedirs(bd, exist_ok=True)
             # dependency stamp: hash of every .vo mtime is overkill; hash the sources of coq/ + driver
             h = hashlib.sha256()
-            for dp, dn, fn in os.walk(COQ):
-                dn.sort()
-                for f in sorted(fn):
-                    if f.endswith(".v"):
-                        h.update(open(os.path.join(dp, f), "rb").read())
+            for f in dep_closure(exv):
+                h.update(open(f, "rb").read())
             h.update(open(drv, "rb").read())
             for extra in ("common.ml",):
                 p = os.path.join(ROOT, "ocaml", extra)
